@@ -978,6 +978,28 @@ func alLenStores(c *Ctx, R *bankRoles) {
 						}
 					}
 					c.Check(okStore, fmt.Sprintf("%s/len-store#%d", fnKey(fn), nLen), P.pos(st.Pos()), "the arena length is incremented by one or reset to zero", "an arena's length is given a value other than itself plus one, or zero: a slot that is still in use can be handed out again")
+					// a function that takes a slot (bumps the length) clears it on every way out, whoever calls it and
+					// with whatever arguments: a second way into the allocator that skips the clear hands out what an
+					// earlier record left there
+					if k, isK := constInt(st.Val); !(isK && k == 0) && fn.Signature.Results().Len() == 1 {
+						var clr ssa.Instruction
+						for _, cs := range callsIn(fn) {
+							if cs.Static != nil && (cs.Static.Name() == "typedmemclr" || cs.Static.Name() == "typedmemclrpartial") {
+								clr = cs.Instr
+							}
+						}
+						okClr := clr != nil
+						if okClr {
+							for _, r := range returnsOf(fn) {
+								if !dominatesInstr(clr, r) {
+									okClr = false
+								}
+							}
+						}
+						c.Rule("AL-CLR", "", 0)
+						c.Check(okClr, fmt.Sprintf("%s/clear-on-every-path#%d", fnKey(fn), nLen), P.pos(st.Pos()), "the function that takes the slot clears it (typedmemclr) on every path to a return", "the function that takes a slot from the arena does not clear it on every path to a return (the clear is missing, or depends on a condition): a recycled bank hands out what an earlier record left there")
+						c.Rule("AL-BUMP", "", 0)
+					}
 				}
 			}
 		}
